@@ -41,3 +41,194 @@ def failures(pid, tier, replay):
         return engine.engine_replay(pid, replay)
     fams = _fams([dict(fam="fail", K=3, CH=3)], [dict(fam="fail", K=27, CH=40)], tier)
     return engine.engine_check(pid, fams, tier, maxruns=32 if tier == "quick" else 500)
+
+
+# ---------------------------------------------------------------------------
+import json, os, shutil, subprocess, time
+import fnlib, nbuild
+from common import *
+
+
+@reg("C14")
+def canon(pid, tier, replay):
+    t0 = time.time()
+    bins = nbuild.build("dbg", ["fn"])
+    wd = scratch(pid)
+    try:
+        found = []
+        if replay:
+            rp = json.load(open(replay))
+            vec = os.path.join(wd, "v.ndjson")
+            open(vec, "w").write(json.dumps({"in": rp["in"], "exp": rp["exp"]}) + "\n")
+            n, bad = fnlib.fn_check(bins["fn"], "canon", vec, wd)
+            if bad:
+                found.append((replay, "CanonicalizePath(%r) = %r, reference %r" % (fnlib.bytes_to_text(rp["in"]), fnlib.bytes_to_text(bad[0]["got"]), fnlib.bytes_to_text(rp["exp"]))))
+            return report(pid, found, {})
+        maxlen = 9 if tier == "quick" else 11
+        explen = 8 if tier == "quick" else 10
+        ngen = 150 if tier == "quick" else 1500
+        # 1. laws on the reference, exhaustively (one state per string)
+        mc = fnlib.mc_run("CanonPath.tla", "SPECIFICATION Spec\nCONSTANT MaxLen = %d\nINVARIANT LawsHold\nCHECK_DEADLOCK FALSE\n" % maxlen, wd)
+        if mc["error"]:
+            raise Broken("CanonPath model check failed: %s\n%s" % (mc["error"], mc["out"][-1500:]))
+        # 2. spec -> code
+        vec = fnlib.export_vectors("CanonPath.tla", wd, {"EXPLEN": explen})
+        nvec, bad = fnlib.fn_check(bins["fn"], "canon", vec, wd)
+        for b in bad[:25]:
+            p = save_replay(pid, "vec-" + "-".join(map(str, b["in"]))[:60], {"property": pid, "in": b["in"], "exp": b["exp"], "got": b["got"], "problem": b["problem"]})
+            found.append((p, "CanonicalizePath(%r) = %r, reference %r %s" % (fnlib.bytes_to_text(b["in"]), fnlib.bytes_to_text(b["got"]), fnlib.bytes_to_text(b["exp"]), b["problem"])))
+        # 3. code -> spec: seeded random long paths, arbitrary bytes
+        shards = []
+        for k in range(NCPU):
+            tp = os.path.join(wd, "gen.%d.ndjson" % k)
+            subprocess.run([bins["fn"], "gen", "canon", str(seed() * 1000 + k), str(ngen), tp], check=True)
+            shards.append(tp)
+        calls = 0
+        nviol = len(bad)
+        for tp, d, r in fnlib.validate_calls("CanonTrace", shards, wd):
+            calls += d["stats"]["calls"]
+            lines = open(tp).read().split("\n")
+            for v in d["viol"]:
+                nviol += 1
+                e = json.loads(lines[v["l"] - 1])
+                p = save_replay(pid, "gen-%s-%d" % (os.path.basename(tp), v["l"]), {"property": pid, "in": e["in"], "exp": [], "got": e["out"], "note": "reference value is computed by TLC (CanonRef!Canon); replay re-runs the trace validation of this call"})
+                found.append((p, "random path: CanonicalizePath(%r) = %r rejected by CanonRef" % (fnlib.bytes_to_text(e["in"])[:80], fnlib.bytes_to_text(e["out"])[:80])))
+        sample = [json.loads(l) for l in open(vec).read().split("\n")[1000:1004] if l]
+        write_evidence(pid, tier, "model_checking", {
+            "states": mc["distinct"], "transitions": mc["states"],
+            "traces_validated_against_impl": nvec + calls,
+            "samples": [{"in": fnlib.bytes_to_text(s["in"]), "expected": fnlib.bytes_to_text(s["exp"])} for s in sample],
+            "evaluations": nvec + calls, "distinct_nontrivial": nvec,
+            "rule": "every string over {a,b,.,/} up to length %d is one TLC state (laws checked on the reference) and, up to length %d, one implementation test with the TLC-computed expectation; plus %d seeded random long paths validated code->spec" % (maxlen, explen, calls),
+            "exhaustive": True, "alphabet": "a b . /", "max_len_laws": maxlen, "max_len_impl_tests": explen, "random_calls": calls,
+        }, time.time() - t0, nviol, ["TLC", "CanonRef.tla is the meaning of 'lexically equal' (one-step rewrites) and of the normal form"])
+        return report(pid, found, {})
+    finally:
+        shutil.rmtree(wd, ignore_errors=True)
+
+
+def _sh_batch(argvbin, items):
+    """items: list of (text bytes, expected list of bytes words).  Runs them through /bin/sh -c in one
+    shell; returns list of indices whose argv differs."""
+    script = b"".join(argvbin.encode() + b" " + t + b"\n" for t, _ in items)
+    r = subprocess.run(["/bin/sh", "-c", script], capture_output=True, timeout=120)
+    recs = r.stdout.split(b"\n")
+    if recs and recs[-1] == b"":
+        recs = recs[:-1]
+    want = [b"".join(w + b"\0" for w in ws) for _, ws in items]
+    if recs == want and r.returncode == 0 and not r.stderr:
+        return []
+    if len(items) == 1:
+        return [0]
+    # pinpoint
+    mid = len(items) // 2
+    return _sh_batch(argvbin, items[:mid]) + [mid + i for i in _sh_batch(argvbin, items[mid:])]
+
+
+@reg("C16")
+def shellquote(pid, tier, replay):
+    t0 = time.time()
+    bins = nbuild.build("dbg", ["fn", "argv", "h1"])
+    wd = scratch(pid)
+    try:
+        found = []
+        if replay:
+            rp = json.load(open(replay))
+            if "scenario" in rp:
+                return engine.engine_replay(pid, replay)
+            vec = os.path.join(wd, "v.ndjson")
+            open(vec, "w").write(json.dumps({"names": rp["names"], "sp": rp["sp"], "nl": rp["nl"]}) + "\n")
+            n, rows = fnlib.fn_check(bins["fn"], "expand", vec, wd)
+            names = [bytes(n) for n in rp["names"]]
+            shbad = _sh_batch(bins["argv"], [(bytes(rows[0]["sp"]), names)])
+            if shbad:
+                found.append((replay, "/bin/sh reads %r as something other than %r" % (bytes(rows[0]["sp"]), names)))
+            return report(pid, found, {})
+        mc = fnlib.mc_run("ShellQuote.tla", open(os.path.join(SPEC, "MC_ShellQuote.cfg")).read(), wd)
+        if mc["error"]:
+            raise Broken("ShellQuote model check failed: %s\n%s" % (mc["error"], mc["out"][-1500:]))
+        which = ["1", "3", "L", "2"]
+        vecs = parallel(lambda w: fnlib.export_vectors("ShellQuote.tla", wd, {"WHICH": w}, name="vec%s.ndjson" % w,
+                                                       cfg_text="SPECIFICATION Spec\nCHECK_DEADLOCK FALSE\nCONSTRAINT NoStates\n"), which) if False else None
+        # export needs no state exploration: use a config with a constraint-free spec but stop at the ASSUME
+        vecs = []
+        for w in which:
+            vecs.append(fnlib.export_vectors("ShellQuote.tla", wd, {"WHICH": w}, name="vec%s.ndjson" % w,
+                                             cfg_text="INIT Init\nNEXT StopNext\nCHECK_DEADLOCK FALSE\n"))
+        nvec = 0
+        nviol = 0
+        drift = 0
+        items = []   # for the sh binding: the REAL expansions
+        SAFE = set(b"abcdefghijklmnopqrstuvwxyzABCDEFGHIJKLMNOPQRSTUVWXYZ0123456789_+-./")
+        for vp in vecs:
+            n, rows = fnlib.fn_check(bins["fn"], "expand", vp, wd)
+            nvec += n
+            for j in rows:
+                names = [bytes(x) for x in j["names"]]
+                if j["drift"]:
+                    drift += 1     # differs from the reference quoting text: Impl-level information only
+                if j["problem"]:
+                    raise Broken("expand harness: " + j["problem"])
+                sp, nl, out = bytes(j["sp"]), bytes(j["nl"]), bytes(j["out"])
+                # names that need no quoting are passed verbatim
+                if all(set(nm) <= SAFE for nm in names) and sp != b" ".join(names):
+                    nviol += 1
+                    if len(found) < 25:
+                        p = save_replay(pid, "verbatim-%d" % nviol, {"property": pid, "names": j["names"], "sp": j["sp"], "nl": j["nl"]})
+                        found.append((p, "safe names %r are not passed verbatim: %r" % (names, sp)))
+                items.append((sp, names, j))
+                if len(names) > 1:
+                    for ln, nm in zip(nl.split(b"\n"), names):
+                        items.append((ln, [nm], j))
+                if len(names) > 1 or len(names[0]) <= 1 or names[0][0] in (39, 92, 32, 36):
+                    items.append((out, [b"o%d-" % i + x for i, x in enumerate(names)], j))
+        # the real /bin/sh must rebuild exactly the names
+        batches = [items[i:i + 400] for i in range(0, len(items), 400)]
+        res = parallel(lambda b: _sh_batch(bins["argv"], [(t, w) for t, w, _ in b]), batches)
+        shruns = len(batches)
+        for b, badidx in zip(batches, res):
+            for i in badidx:
+                nviol += 1
+                if len(found) < 25:
+                    t, w, j = b[i]
+                    p = save_replay(pid, "sh-%d" % nviol, {"property": pid, "names": j["names"], "sp": j["sp"], "nl": j["nl"], "text": list(t)})
+                    found.append((p, "/bin/sh reads %r as something other than the words %r" % (t, w)))
+        # response-file clauses: engine traces
+        fams = [dict(fam="inc", K=4 if tier == "quick" else 30, CH=3 if tier == "quick" else 8),
+                dict(fam="fail", K=2 if tier == "quick" else 10, CH=2 if tier == "quick" else 6)]
+        sd = seed()
+        scen = [s for s in engine.load_scenarios(fams, sd) if any(st.get("rsp") for st in s["stmts"])] or engine.load_scenarios(fams[:1], sd)[:50]
+        # make sure response files are exercised: give every command statement of half of the scenarios one
+        for k, s in enumerate(scen):
+            if k % 2 == 0:
+                for st in s["stmts"]:
+                    if not st["phony"]:
+                        st["rsp"] = True
+        files, execs, capped = engine.run_h1(bins["h1"], scen, wd, 8, sd)
+        rspv = 0
+        by_id = {s["id"]: s for s in scen}
+        estates = 0
+        for (sp, tp), (d, r) in zip(files, engine.validate(files, wd)):
+            estates += r["states"]
+            for v in d["viol"]:
+                if v["p"] != pid:
+                    continue
+                rspv += 1
+                nviol += 1
+                scid, run, choices, ev = engine.locate(tp, v["l"])
+                if len(found) < 25:
+                    p = save_replay(pid, "%s-run%d-l%d" % (scid, run, v["l"]), {"property": pid, "scenario": by_id.get(scid), "choices": choices, "violation": v})
+                    found.append((p, v["what"]))
+        write_evidence(pid, tier, "model_checking", {
+            "states": mc["distinct"] + estates, "transitions": mc["states"] + estates,
+            "traces_validated_against_impl": nvec + execs,
+            "samples": [{"names": [fnlib.bytes_to_text(n) for n in items[k][2]["names"]], "text": fnlib.bytes_to_text(items[k][0])} for k in (5, 300, 70000) if k < len(items)],
+            "evaluations": nvec + len(items) + execs, "distinct_nontrivial": nvec,
+            "rule": "every name of <= 2 bytes over 1..255 without newline, every 3-byte name over a 24-character shell-special alphabet, every list of <= 3 hostile names: "
+                    "one TLC state each (ShWords(JoinQ(names)) = names), one implementation test each ($in/$in_newline through the real Edge), one /bin/sh execution each; "
+                    "rspfile clauses on engine executions",
+            "exhaustive": True, "impl_conformance": {"expansions_equal_to_reference_text": nvec - drift, "differing": drift}, "sh_invocations": shruns, "sh_word_checks": len(items), "engine_executions_with_rspfiles": execs,
+        }, time.time() - t0, nviol, ["TLC", "ShellQuote.tla word-formation model, itself bound to the real /bin/sh (dash) by executing every expected text"])
+        return report(pid, found, {})
+    finally:
+        shutil.rmtree(wd, ignore_errors=True)
